@@ -84,6 +84,13 @@ def run_timeline(rec, case):
 def _timeline(rec, rng, sim, R, V, srv, pi, pt, n, monitor, rto, desc):
     delays = [0, pt / 2.0, pt - 2.0 ** -10]
     modes = []
+    if (len(desc) + int(pi * 8)) % 3 == 0:
+        # the very first connection this server sees is refused by the
+        # application; everything after it is as usual
+        rec.count('first_connection_refused')
+        sim.connect_script = [False]
+        sim.open_polling() if int(pt * 16) % 2 else sim.open_ws()
+        sim.quiesce()
     for k in range(n):
         m = rng.choice(['polling', 'websocket', 'upgraded'])
         d = rng.choice(delays)
